@@ -194,7 +194,7 @@ TrUnmarshal ==
          Z == IF e.entry = "TWCC" THEN Twcc13Tags(buf[e.b], res) ELSE {}
          G(D) == UnmarshalGuard(D, e.entry, e.b, res) \cup X \cup Y \cup Z IN
      /\ pk' = [pk EXCEPT ![e.h] = IF res.ok THEN res.out ELSE None]
-     /\ memo' = [memo EXCEPT ![e.h] = NoMemo] /\ UNCHANGED << buf, prov, provdec >>
+     /\ memo' = [memo EXCEPT ![e.h] = SrcMemo(e.b, e.entry)] /\ UNCHANGED << buf, prov, provdec >>
      /\ fromdec' = IF res.ok THEN fromdec \cup {e.h} ELSE fromdec \ {e.h}
      /\ Step(Verdict(G, InputMod(e)),
              DecClass("dec", DecEntry({}, e.entry, buf[e.b]).st, res.ok)
@@ -212,7 +212,7 @@ TrDatagram ==
                    ELSE (IF res.ok THEN {"C06:not_all_or_nothing"} ELSE {})
          G(D) == DatagramGuard(D, e.b, res) \cup X IN
      /\ pk' = [pk EXCEPT ![e.h] = IF res.ok THEN [k |-> "LIST", pkts |-> res.out] ELSE None]
-     /\ memo' = [memo EXCEPT ![e.h] = NoMemo] /\ UNCHANGED << buf, prov, provdec >>
+     /\ memo' = [memo EXCEPT ![e.h] = SrcMemo(e.b, "LIST")] /\ UNCHANGED << buf, prov, provdec >>
      /\ fromdec' = IF res.ok THEN fromdec \cup {e.h} ELSE fromdec \ {e.h}
      /\ Step(Verdict(G, InputMod(e)),
              DecClass("dgram", DecDatagram({}, buf[e.b]).st, res.ok)
